@@ -279,8 +279,11 @@ def _r134_fit(ctx):
         ok2 = bool(dict_st)
         for e in dict_st:
             k = e.data["key"]
-            ok2 = ok2 and k.op == "elem" and k.args[0].op == "call" and k.args[0].args[0].op == "attr" \
-                and k.args[0].args[0].args[1] == "keys"
+            # `for k in curves.keys()`  or  `for k, curve in curves.items()`
+            k_it = k.args[0].args[0] if (k.op == "sub" and k.args[0].op == "elem" and k.args[1] is const(0)) else \
+                (k.args[0] if k.op == "elem" else None)
+            ok2 = ok2 and k_it is not None and k_it.op == "call" and k_it.args[0].op == "attr" and \
+                k_it.args[0].args[1] == ("items" if k.op == "sub" else "keys")
         n += 1
         ctx.ob("R13.4", r.func, st[0].node if st else None, ok1 and ok2, "per-group curves are keyed by the group-by key "
                "and the interpolation table by the keys of those curves", construct=f"{m} keys")
